@@ -26,6 +26,7 @@ from ..lifecycle import Lifecycle
 from ..repo import AnalysisError, own_nodes
 from .common import DISPATCHER, resolve_root
 from .c12 import dispatcher_reset
+from .c16 import falsy_id_tests
 
 MANIFEST = {
     "text": (
@@ -247,8 +248,27 @@ def _start_time_shape(ctx, fi):
     chk = ctx.chk
     op_p, mid_p = fi.params[1], fi.params[2]
     rets = [n for n in own_nodes(fi.node) if isinstance(n, ast.Return) and n.value is not None]
+    # truthiness tests on ids (machine 0 / job 0 treated as "missing")
+    n_falsy = len(chk.findings)
+    falsy_id_tests(ctx, "R02.e", lambda f: f is fi)
     if len(rets) != 1:
-        raise AnalysisError("Dispatcher.start_time: single return expected")
+        # returns guarded by a test on whether a parameter was given
+        # (`if machine_id is None: return self.earliest_start_time(op)`)
+        # are a separate entry; the unguarded one is the definition
+        def guarded(r):
+            cur = fi.module.parents.get(r)
+            while cur is not None and cur is not fi.node:
+                if isinstance(cur, ast.If):
+                    names = {x.id for x in ast.walk(cur.test) if isinstance(x, ast.Name)}
+                    if names and names <= set(fi.params[1:]):
+                        return True
+                cur = fi.module.parents.get(cur)
+            return False
+        rets = [r for r in rets if not guarded(r)]
+    if len(rets) != 1:
+        if len(chk.findings) > n_falsy:
+            return
+        raise AnalysisError("Dispatcher.start_time: single unguarded return expected")
     v = rets[0].value
     defs = ctx.flow.defs(fi)
 
@@ -332,3 +352,25 @@ def _replay_sites(ctx, dispatch):
                     loc=fi.loc(loop),
                 )
     chk.floor("R02.c", n, 1, "replay call sites")
+    # the record handed out to callers is a value: reset starts a new list and
+    # leaves the one already handed out untouched, so a history taken before
+    # `dispatcher.reset()` can be replayed on that very dispatcher
+    hist = repo.find_class("HistoryObserver")
+    hr = repo.method(hist, "reset")
+    if hr is None:
+        raise AnalysisError("HistoryObserver.reset vanished")
+    lc = Lifecycle(ctx)
+    ws = [w for w in lc.attr_writes(hr, hist) if w.attr == "history"]
+    weak = [w for w in ws if w.kind != "rebind"]
+    if weak:
+        chk.violation(
+            "R02.c", hr, weak[0].event.node,
+            f"HistoryObserver.reset modifies the recorded list in place ({weak[0].text}): a history obtained from the "
+            "observer is wiped (or keeps growing) when the dispatcher is reset, so it cannot be replayed on the reset "
+            "dispatcher",
+            loc=weak[0].loc,
+        )
+    elif ws:
+        chk.ok("R02.c", hr.qualname, hr.loc(), "reset rebinds history to a new list; recorded lists already handed out stay intact")
+    else:
+        chk.violation("R02.c", hr, None, "HistoryObserver.reset does not start a new history")
